@@ -167,6 +167,7 @@ static void apply(World &w, const Op &op) {
     // C07: two heap-backed vectors with the same allocator type, whose capacities fit each other's size_type, hand over
     // their buffers: data() values are exchanged and no element operation is performed
     const void *da = w.a().data(), *db = w.b().data();
+    const unsigned long long ca0 = w.a().capacity(), cb0 = w.b().capacity();
     const bool heap_a = !PA::fixed && !is_inline(w.a()) && w.a().capacity() > 0, heap_b = !PB::fixed && !is_inline(w.b()) && w.b().capacity() > 0;
     const bool can_hand_over = heap_a && heap_b && std::is_same<PA::Alloc, PB::Alloc>::value &&
                                (unsigned long long)w.a().capacity() <= (unsigned long long)std::numeric_limits<B_ST>::max() &&
@@ -193,6 +194,9 @@ static void apply(World &w, const Op &op) {
         if (can_hand_over) {
           if (w.a().data() != db || w.b().data() != da) vf::fail("C07", "swap2 of two heap-backed vectors did not hand over the buffers");
           else if (vf::L().elem_ops() != 0) vf::fail("C07", "swap2 of two heap-backed vectors performed %ld element operations", vf::L().elem_ops());
+          // a block changes owner together with its capacity (what the new owner hands back to the allocator)
+          if ((unsigned long long)w.a().capacity() != cb0 || (unsigned long long)w.b().capacity() != ca0)
+            vf::fail("C13,C06,C07", "swap2 of two heap-backed vectors with capacities %llu/%llu left capacities %llu/%llu", ca0, cb0, (unsigned long long)w.a().capacity(), (unsigned long long)w.b().capacity());
         }
       }
     }
